@@ -11,7 +11,48 @@ package types
 //@ spec func distParamsValid(s int) bool
 //@ func (p Params) Validate() (err)
 //@   trusted
+//@   // (the abstract equivalence is assumed; the body is still under the no-panic check)
+//@   panic_requires shareListsBounded(p.SubDistributors)
 //@   ensures (err == nil) == distParamsValid(snap(p))
+//@   prop C20
+//@ pred shareListsBounded(sds) = len(sds) < 1000000000 && (forall i: int :: {sds[i].Name} 0 <= i && i < len(sds) ==> len(sds[i].Destinations.Shares) <= 1000000)
+//@ // no source and no share of the sub distributor is nil (each sub distributor's own Validate rejects those)
+//@ pred sdRefsOK(sd) = (forall k: int :: {sd.Sources[k]} 0 <= k && k < len(sd.Sources) ==> sd.Sources[k] != nil)
+//@   && (forall k: int :: {sd.Destinations.Shares[k]} 0 <= k && k < len(sd.Destinations.Shares) ==> sd.Destinations.Shares[k] != nil)
+//@ pred allRefsOK(sds, n) = forall k: int :: {sds[k].Name} 0 <= k && k < n ==> sdRefsOK(sds[k])
+//@ // (holder of the loop contract: the body is inlined into Params.Validate)
+//@ func validateSubDistributors(v) (err)
+//@   inline
+//@ loop validateSubDistributors#1
+//@   invariant 0 <= \i && \i <= len(subDistributors) && allRefsOK(subDistributors, \i) && shareListsBounded(subDistributors)
+//@ // the ordering check over the whole list: occurrence maps keyed by account id; no claim beyond panic-freedom
+//@ func ValidateSubDistributors(subDistributors) (err)
+//@   requires allRefsOK(subDistributors, len(subDistributors)) && len(subDistributors) < 1000000000
+//@   prop C20
+//@ loop ValidateSubDistributors#1
+//@   invariant 0 <= \i && \i <= len(subDistributors) && len(subDistributors) < 1000000000
+//@ func setOccurrence(lastOccurrence, lastOccurrenceIndex, subDistributorName, account, position, accountType) (err)
+//@   requires account != nil && position < 1000000000 && arr(lastOccurrence) != 0 && arr(lastOccurrenceIndex) != 0
+//@   modifies elems(lastOccurrence), elems(lastOccurrenceIndex)
+//@   prop C20
+//@ func validateUniquenessOfNames(subDistributorName, nameOccurred) (err)
+//@   requires arr(nameOccurred) != 0
+//@   modifies elems(nameOccurred)
+//@   prop C20
+//@ func validateSources(accounts, subDistributorIndex, lastOccurrence, lastOccurrenceIndex, subDistributorName, accountType) (err)
+//@   inline
+//@ loop validateSources#1
+//@   invariant 0 <= \i && \i <= len(accounts)
+//@ func validateDestinationsShares(shares, subDistributorIndex, lastOccurrence, lastOccurrenceIndex, shareNameOccurred, subDistributorName, accountType) (err)
+//@   inline
+//@ loop validateDestinationsShares#1
+//@   invariant 0 <= \i && \i <= len(shares)
+//@ func validateLastOccurrence(lastOccurrence) (err)
+//@   inline
+//@ loop validateLastOccurrence#1
+//@   invariant true
+//@ loop validateLastOccurrence#2
+//@   invariant 0 <= \i && \i <= len(accountIds)
 
 //@ // ---- validation of one sub distributor: what Validate establishes (C10: the distribution arithmetic relies on it) ----
 //@ // sum of the first n shares of a share list (ptrs: element row of the list, shr: DestinationShare.Share column, o: offset)
@@ -108,7 +149,8 @@ package types
 //@ // ---- C20: entry points under the no-panic sweep (no functional claim here: they must not panic for any field values) ----
 //@ func (msg MsgUpdateParams) ValidateBasic() (r0)
 //@   requires msg != nil
-//@   prop C20x
+//@   panic_requires shareListsBounded(msg.SubDistributors)
+//@   prop C20
 //@ func (msg MsgUpdateSubDistributorBurnShareParam) ValidateBasic() (r0)
 //@   requires msg != nil
 //@   prop C20
